@@ -63,6 +63,7 @@ Implicit Types (ow : bool) (q : q1).
 Lemma shift_from_head_spec i : forall q fuel, head q < qsize q -> i < qsize q -> i < fuel ->
   let q' := shift_from_head q (intern q i) fuel in
   st q' = st q /\ qsize q' = qsize q /\ cnt q' = cnt q /\ head q' = head q /\ tail q' = tail q /\
+  inl q' = inl q /\
   forall j, j < qsize q -> getu q' j = if (0 <? j) && (j <=? i) then getu q (j - 1) else getu q j.
 Proof.
   induction i as [|i IH]; intros q fuel Hh Hi Hf; (destruct fuel as [|f]; [lia|]); cbn [shift_from_head].
@@ -75,7 +76,7 @@ Proof.
       rewrite <- setu_set_raw.
       set (q2 := setu q (S i) (getu q i)).
       rewrite <- (intern_setu q (S i) (getu q i) i). fold q2.
-      destruct (IH q2 f) as (H1&H2&H3&H4&H5&H6); subst q2; autorewrite with qdb; try lia.
+      destruct (IH q2 f) as (H1&H2&H3&H4&H5&H7&H6); subst q2; autorewrite with qdb; try lia.
       autorewrite with qdb in *. repeat split; try assumption.
       intros j Hj. rewrite H6 by lia. rewrite !getu_setu by lia. dif; fin.
 Qed.
@@ -84,6 +85,7 @@ Lemma shift_from_tail_spec d : forall q i fuel, head q < qsize q -> cnt q <= qsi
   tail q = intern q (cnt q - 1) -> i + d = cnt q - 1 -> 0 < cnt q -> d < fuel ->
   let q' := shift_from_tail q (intern q i) fuel in
   st q' = st q /\ qsize q' = qsize q /\ cnt q' = cnt q /\ head q' = head q /\ tail q' = tail q /\
+  inl q' = inl q /\
   forall j, j < qsize q -> getu q' j = if (i <=? j) && (j <? cnt q - 1) then getu q (j + 1) else getu q j.
 Proof.
   induction d as [|d IH]; intros q i fuel Hh Hc Ht Hd Hp Hf; (destruct fuel as [|f]; [lia|]);
@@ -97,7 +99,7 @@ Proof.
       rewrite <- setu_set_raw.
       set (q2 := setu q i (getu q (i + 1))).
       rewrite <- (intern_setu q i (getu q (i + 1)) (i + 1)). fold q2.
-      destruct (IH q2 (i + 1) f) as (H1&H2&H3&H4&H5&H6); subst q2; autorewrite with qdb; try lia;
+      destruct (IH q2 (i + 1) f) as (H1&H2&H3&H4&H5&H7&H6); subst q2; autorewrite with qdb; try lia;
         try exact Ht.
       autorewrite with qdb in *. repeat split; try assumption.
       intros j Hj. rewrite H6 by lia. dif; rewrite ?getu_setu by lia; dif; fin.
@@ -110,19 +112,19 @@ Proof.
   pose proof (inv_cnt _ _ q I) as Hc. pose proof (inv_hd _ _ q I ltac:(lia)) as Hh.
   pose proof (inv_tail _ _ q I ltac:(lia)) as Ht.
   destruct (i <? cnt q / 2) eqn:E.
-  - destruct (shift_from_head_spec i q (qsize q) Hh ltac:(lia) ltac:(lia)) as (H1&H2&H3&H4&H5&H6).
+  - destruct (shift_from_head_spec i q (qsize q) Hh ltac:(lia) ltac:(lia)) as (H1&H2&H3&H4&H5&H7&H6).
     set (q2 := shift_from_head q (intern q i) (qsize q)) in *.
     assert (I2 : inv ow sq q2).
     { apply (inv_same_shape _ _ q); try assumption. intros j Hj. rewrite H6 by lia. dif; fin. }
     rewrite <- (remove_head_eq ow q2) by lia.
     split; [apply inv_remove_head; [assumption|lia]|].
-    destruct (remove_head_shape ow sq q2 I2 ltac:(lia)) as (_&_&C&_&_&G).
+    destruct (remove_head_shape ow sq q2 I2 ltac:(lia)) as (_&_&C&_&_&_&G).
     apply abs_ext; unfold l0_remove_at; autorewrite with nthdb; [lia|].
     intros j Hj. autorewrite with nthdb in Hj. rewrite G by lia.
     replace (j + 1 <? qsize q2) with true by lia. rewrite H6 by lia.
     autorewrite with nthdb absdb. dif; fin.
   - destruct (shift_from_tail_spec (cnt q - 1 - i) q i (qsize q) Hh Hc Ht ltac:(lia) ltac:(lia) ltac:(lia))
-      as (H1&H2&H3&H4&H5&H6).
+      as (H1&H2&H3&H4&H5&H7&H6).
     set (q2 := shift_from_tail q (intern q i) (qsize q)) in *.
     assert (I2 : inv ow sq q2).
     { apply (inv_same_shape _ _ q); try assumption. intros j Hj. rewrite H6 by lia. dif; fin. }
